@@ -141,6 +141,14 @@ Proof.
   destruct (helpers_ok fuel Hf) as (H1 & H2 & H3). apply bit_to_number_str_gen; assumption.
 Qed.
 
+(* the same on a NumPy array of bits (what encode of dsw/spiderweb.py passes) *)
+Theorem py_bit_to_number_str_arr : forall fuel bits verbose, Forall (fun a => 0 <= a <= 9) bits -> (3 <= fuel)%nat ->
+  py fuel "bit_to_number" [varr bits; VBool true; VBool verbose] = Ret (dstr (bit_to_number_str bits)).
+Proof.
+  intros fuel bits verbose HB Hf. rewrite py_b2n_unfold.
+  destruct (helpers_ok fuel Hf) as (H1 & H2 & H3). apply bit_to_number_str_gen_arr; assumption.
+Qed.
+
 Theorem py_bit_to_number_int : forall fuel bits verbose,
   py fuel "bit_to_number" [vints bits; VBool false; VBool verbose] = Ret (VInt (bit_to_number_int bits)).
 Proof. intros fuel bits verbose. rewrite py_b2n_unfold. apply bit_to_number_int_gen. Qed.
@@ -351,6 +359,7 @@ Print Assumptions py_calculus_subtraction.
 Print Assumptions py_calculus_multiplication.
 Print Assumptions py_calculus_division.
 Print Assumptions py_bit_to_number_str.
+Print Assumptions py_bit_to_number_str_arr.
 Print Assumptions py_bit_to_number_int.
 Print Assumptions py_number_to_bit_str.
 Print Assumptions py_number_to_bit_int.
